@@ -22,9 +22,9 @@ LEVEL = "exploration"
 N_QUICK, N_THOROUGH = 24000, 800000
 T_QUICK, T_THOROUGH = 70, 1500
 FLOORS = {"hybrid_roundtrips": 4000, "json_roundtrips": 4000, "json_text_roundtrips": 1500,
-          "fields_compared": 40000, "renamed_fields_compared": 3000, "nested_renamed_compared": 800,
-          "fields_at_default": 4000, "elision_asserted": 2000, "omitted_field_took_default": 1500,
-          "empty_dynamic_arrays": 300, "ref_fields_nonnull": 300, "isolation_writes": 2000, "subclass_roundtrips": 800,
+          "fields_compared": 15000, "renamed_fields_compared": 3000, "nested_renamed_compared": 800,
+          "fields_at_default": 2500, "elision_asserted": 2000, "omitted_field_took_default": 1500,
+          "empty_dynamic_arrays": 300, "ref_fields_nonnull": 300, "isolation_writes": 2000, "subclass_roundtrips": 400,
           "seen:json:st": 500, "seen:json:ar": 500, "seen:json:str": 300}
 RULE = ("A: generated hybrid class families (1-3 levels; scalars, strings, numeric arrays static/dynamic 1-2 D, nested "
         "hybrids, references to hybrids, renamed fields, default / default_factory) with values deliberately equal to "
